@@ -467,3 +467,41 @@ Fixpoint obs_eqb (a b : list (list field * nat)) : bool :=
 Definition case15 := (list call * list (list field * nat))%type.
 Definition case_agrees (v : variant) (cs : case15) : bool :=
   obs_eqb (trace v (fst cs) w_init []) (snd cs).
+
+(* ---- static tie (harness/translate_c15.py): what the code of a call may write ------------------- *)
+(* kinds of the last write to a field, as the analysis of the source classifies them: any value; a literal constant;
+   the value read from the same location before the call touched it (a restore); the two halves of the cut-off
+   subtraction and its recovery (recover_law); never written on some path *)
+Inductive wkind := WAny | WConst (s : sym) | WRestore | WSub | WAddBack | WNone.
+Definition may_change (f : field) (k : wkind) : bool :=
+  match k with
+  | WAny | WSub => true
+  | WConst c => negb (expr_eqb (s0 f) (Sy c))      (* the two flags start false in a clean world *)
+  | WRestore | WAddBack | WNone => false
+  end.
+Definition mem_field (f : field) (l : list field) : bool := existsb (field_eqb f) l.
+(* fields the model's program of a shape writes (scratch excluded), and fields its symbolic run leaves changed *)
+Definition model_written (s : shape) : list field := filter (fun f => negb (is_scratch f)) (map fst (prog_of repaired s)).
+Definition model_changed (s : shape) : list field := changed s s0 (sym_run repaired s).
+Definition written_ok (s : shape) (code : list field) : bool := forallb (fun f => mem_field f (model_written s)) code.
+Definition changed_ok (s : shape) (code : list (field * list wkind)) : bool :=
+  forallb (fun fk => negb (existsb (may_change (fst fk)) (snd fk)) || mem_field (fst fk) (model_changed s)) code.
+Definition covers (s : shape) (code : list field) : bool := forallb (fun f => mem_field f code) (model_written s).
+
+Definition failing_eqb (a b : failing) : bool := match a, b with FailCRFTD, FailCRFTD | FailMR, FailMR => true | _, _ => false end.
+Definition shape_eqb (a b : shape) : bool :=
+  match a, b with
+  | RelT x, RelT y => tk_eqb x y
+  | RelTFail x, RelTFail y => failing_eqb x y
+  | RateM, RateM | SvProp, SvProp | PopProp, PopProp => true
+  | DMProp p x, DMProp q y => pk_eqb p q && Bool.eqb x y
+  | Heom r1 f1, Heom r2 f2 => Bool.eqb r1 r2 && Bool.eqb f1 f2
+  | EsoCalc x, EsoCalc y => ek_eqb x y
+  | _, _ => false
+  end.
+(* the calls of the property whose code is analysed: all of [api] except RelT LF, which is a bare constructor call
+   LindbladForm(ham, sbi) (no method of the package between the caller and the constructor) *)
+Definition api_shapes : list shape :=
+  map RelT [T; TS; O; TD; TDO; F; TDF; CRF] ++ [RelTFail FailCRFTD; RateM] ++
+  flat_map (fun p => [DMProp p false; DMProp p true]) all_pk ++ [SvProp; PopProp] ++
+  [Heom false false; Heom false true; Heom true false; Heom true true] ++ map EsoCalc all_ek.
